@@ -32,6 +32,7 @@ CaseVerdict ==
     [] E.what = "features" -> "accept"
     [] E.what = "reqtype" -> ReqTypeVerdict(E.i)
     [] E.what = "role" -> RoleVerdict(E.t, E.key, E.c)
+    [] E.what = "pt" -> PtVerdict(E.key)
     [] E.what = "pos" -> PosVerdict(E.t, E.i, E.c)
     [] E.what = "key" -> KeyVerdict((CHOOSE k \in Types[E.t].keys : k.k = E.key).kind, E.c)
 
